@@ -190,8 +190,8 @@ def ctrlProg (op : String) (t : SignType) (a : UInt16) (items : List (List UInt8
 
 def runCtrl (p : AnyProg) (script : List Reply) : String :=
   match p with
-  | .unit p => let (tr, o) := p.run script; showTrace tr ++ " => " ++ showOutcome (fun _ => "ok") o
-  | .style p => let (tr, o) := p.run script; showTrace tr ++ " => " ++ showOutcome showStyle o
+  | .unit p => let (tr, o) := p.run script; showTrace (tr.map Prod.fst) ++ " => " ++ showOutcome (fun _ => "ok") o
+  | .style p => let (tr, o) := p.run script; showTrace (tr.map Prod.fst) ++ " => " ++ showOutcome showStyle o
 
 def runOnBus (p : AnyProg) (bus : List VSign) : String × List VSign :=
   match p with
